@@ -193,6 +193,11 @@ def compare(ctx, rule, instance, where, code, ref_poly, ref_dims=None, facts=Non
     """Decide ``code == ref`` as an identity of normal forms.
     VIOLATION only when the non-zero remainder is built from the reference's own vocabulary."""
     for f in findings:
+        if f.kind == 'dtype':
+            inst = 'element type of the buffer written at line %d' % f.line
+            if not any(o.rule == 'DTYPE' and o.instance == inst for o in ctx.obs):
+                ctx.violation('DTYPE', inst, '%s:%d %s' % (f.module, f.line, where.split(' ', 1)[-1]), f.msg, 'dtype:' + f.msg[:80])
+            return False
         if f.kind == 'label-clash':
             ctx.violation('AXIS', instance + ' (axis roles)', '%s:%d %s' % (f.module, f.line, where.split(' ', 1)[-1]),
                           'arrays indexed by different axes are combined: %s' % f.msg, 'label-clash:' + f.msg[:80])
